@@ -24,7 +24,73 @@ ASSUMPTIONS = ["a relay that took k > 1 copies of one frame (several relays abov
                "'unacknowledged' is judged as: one attempt per frame by the sender and no ACK packet on air"]
 
 
+def run_relay_frames(case):
+    """the relay clause at frame granularity: a node of level 1..3 with multicast_relay on receives multicast frames one at
+    a time (well spaced) on its level address - plain frames and the first / middle / last fragments of longer multicasts -
+    and must re-broadcast each once, byte for byte, unacknowledged, to the next level's address"""
+    import struct
+    from vlib import boot
+    from vlib.checks import c15_robust
+    from vlib.sim.core import Sim, Mcu, US
+    from vlib.sim.radio import Chip, Medium
+    from vlib.sim.selftest import Raw
+    L = boot.lib()
+    res = Result()
+    sim = Sim(horizon_ns=60_000 * MS, mcu=Mcu(spi_base=case.get("spi", 20) * US, clock=20 * US))
+    med = Medium(sim)
+    level = case["level"]
+    node, chip, addr = c15_robust.make_node(L, sim, med, case.get("role", "net"), level, [])
+    node.multicast_relay = True
+    X = Chip(sim, med, "X")
+    x = Raw(sim, X)
+    for reg, val in ((0, 0x0E), (1, 0x3F), (2, 0x01), (3, 3), (4, 0x12), (5, 76), (6, 0x07), (0x1D, 0x05), (0x1C, 0x3F)):
+        x.w(reg, val)
+    sim.advance(3 * MS)
+    a0 = bytes(chip.pipe_addr(0))
+    nxt = netaddr.level_address(level + 1)
+    spec = {"plain": (case["type"], 0), "first": (148, 3), "more": (149, 2), "last": (150, case["type"])}
+    try:
+        for i, kind in enumerate(case["frames"]):
+            t, r = spec[kind]
+            body = bytes([0x30 + i]) * (24 if kind in ("first", "more") else case["tail"])
+            data = struct.pack("<HHHBB", case["origin"], 0o100, 7, t, r) + body
+            n0 = len(med.log)
+            x.ce(False)
+            x.w(7, 0x70)
+            x.x(0xE1)
+            x.w(0x0A, *a0)
+            x.w(0x10, *a0)
+            x.x(0xB0, *data)
+            x.ce(True)
+            sim.advance(3 * MS)
+            x.ce(False)
+            for _ in range(3):
+                node.update()
+            sim.advance(20 * MS)
+            sent = [e for e in med.log[n0:] if e["src"] == "N" and not e["ack"]]
+            acks = [e for e in med.log[n0:] if e["ack"]]
+            if acks:
+                res.fail("C14/multicast-acknowledged", "an ACK packet went on air for a multicast frame (%s)" % kind)
+            if len(sent) != 1:
+                res.fail("C14/relay-count/" + kind, "level-%d relay took one %s frame and transmitted %d times" % (level, kind, len(sent)))
+                continue
+            e = sent[0]
+            if e["addr"] != nxt:
+                res.fail("C14/relay-wrong-level", "level-%d relay re-broadcast a %s frame to %s" % (level, kind, e["addr"].hex()))
+            if e["pl"] != data:
+                res.fail("C14/relayed-frame-differs/" + kind, "level-%d relay took %s and re-broadcast %s" % (level, data[:8].hex(), e["pl"][:8].hex()))
+            while len(node.queue):
+                node.queue.dequeue()
+    except Exception as e:  # noqa: BLE001
+        res.fail(exc_signature("C14/raises", e), repr(e))
+    res.nontrivial = True
+    res.label("relay-frame-by-frame")
+    return res
+
+
 def run_case(case):
+    if case.get("kind") == "relay-frames":
+        return run_relay_frames(case)
     res = Result()
     net = Net(horizon_ms=120_000)
     snd, lvl_arg = case["sender"], case["level"]
@@ -325,10 +391,22 @@ def _enum_racing(step):
     return gen
 
 
+def _enum_relay_frames():
+    import itertools
+    for level in (1, 2, 3):
+        for role in ("net", "meshnode"):
+            for typ in (0, 65, 127):
+                for tail in (0, 7, 24):
+                    for origin in (0, 0o5, 0o45):
+                        for w in itertools.chain(itertools.product(("plain", "first", "more", "last"), repeat=1), (("first", "more", "last"), ("first", "last"),
+                                                 ("last", "last"), ("first", "first", "last"), ("plain", "first", "plain", "more", "last"))):
+                            yield {"kind": "relay-frames", "level": level, "role": role, "type": typ, "tail": tail, "origin": origin, "frames": list(w)}
+
+
 def parts(tier):
     if tier == "quick":
-        return [Part("enum-sender-class-x-level", "enum", _enum, exhaustive=True), Part("write-racing-the-multicast-sweep", "enum", _enum_racing(250), exhaustive=True), Part("enum-history-and-relays", "enum", _enum_history, exhaustive=True),
+        return [Part("relay-frame-by-frame", "enum", _enum_relay_frames, exhaustive=True), Part("enum-sender-class-x-level", "enum", _enum, exhaustive=True), Part("write-racing-the-multicast-sweep", "enum", _enum_racing(250), exhaustive=True), Part("enum-history-and-relays", "enum", _enum_history, exhaustive=True),
                 Part("generated", "gen", _strategy, n=300)]
-    return [Part("enum-sender-class-x-level", "enum", _enum, exhaustive=True), Part("write-racing-the-multicast-sweep", "enum", _enum_racing(50), exhaustive=True),
+    return [Part("relay-frame-by-frame", "enum", _enum_relay_frames, exhaustive=True), Part("enum-sender-class-x-level", "enum", _enum, exhaustive=True), Part("write-racing-the-multicast-sweep", "enum", _enum_racing(50), exhaustive=True),
             Part("enum-history-and-relays", "enum", _enum_history, exhaustive=True),
             Part("generated", "gen", _strategy, n=15000)]
